@@ -178,6 +178,12 @@ func classOfAfter(after string) string {
 }
 
 func oracleC01End(r *runner, o *Obs) []Violation {
+	if r.wants("c10-instant") && !r.wants("c01") {
+		vs := r.c10Predicate(o.Tree, "end of execution, outcome '"+o.Outcome+"'")
+		vs = append(vs, r.crashViolations...)
+		r.crashViolations = nil
+		return vs
+	}
 	if !r.wants("c01") {
 		return nil
 	}
@@ -193,8 +199,47 @@ func oracleC01End(r *runner, o *Obs) []Violation {
 	return vs
 }
 
+// c10Predicate: at any instant, a declared output that exists at its final path is
+// accompanied by a valid audit file.
+func (r *runner) c10Predicate(tree map[string]string, where string) []Violation {
+	out := []Violation{}
+	for _, t := range r.ref.Tasks {
+		for _, p := range t.Outs {
+			if _, ok := tree[p]; !ok {
+				continue
+			}
+			if _, pre := r.job.Pre[p]; pre {
+				continue
+			}
+			if r.seedTree != nil {
+				if _, was := r.seedTree[p]; was {
+					continue
+				}
+			}
+			a, ok := tree[p+".audit.json"]
+			cls := ""
+			if !ok {
+				cls = "finalized-without-audit"
+			} else if !json.Valid([]byte(a)) || len(a) == 0 {
+				cls = "finalized-with-broken-audit"
+			}
+			if cls != "" {
+				d := fmt.Sprintf("output %s is at its final path but its audit file is %s (%s)", p, map[string]string{"finalized-without-audit": "missing", "finalized-with-broken-audit": "empty or not valid JSON"}[cls], where)
+				out = append(out, Violation{Prop: "C10", Class: cls, Detail: d, Signature: r.res.Scenario + "|" + cls + "|" + p + "|" + where})
+			}
+		}
+	}
+	return out
+}
+
 func (r *runner) crashHook(tree map[string]string, after string) {
-	if !r.wants("c01") || vs.Cur == nil {
+	if vs.Cur == nil {
+		return
+	}
+	if r.wants("c10-instant") {
+		r.crashViolations = append(r.crashViolations, r.c10Predicate(tree, "killed after "+classOfAfter(after))...)
+	}
+	if !r.wants("c01") {
 		return
 	}
 	for _, v := range r.c01Predicate(tree, vs.Cur.EventList(), "killed after "+classOfAfter(after)) {
